@@ -20,6 +20,7 @@ THEOREMS = [
     "C13_bindings",
     "C13_generated_good",
     "C13_source_wrapper",
+    "C13_source_blame",
 ]
 RULE = (
     "ill- and well-typed calls of jaxtyped(typechecker=tc) functions with 1..4 parameters (arrays with "
